@@ -1,4 +1,5 @@
 import Driver.C04
+import Driver.C17
 import Driver.C20
 import Driver.C18
 import Driver.C16
@@ -26,6 +27,9 @@ partial def loop (h : IO.FS.Stream) (out : IO.FS.Stream) (f : String → String)
   loop h out f
 
 def modes : List (String × (String → String)) := [
+  ("c17pipe", C17.handlePipe),
+  ("c17drehe", C17.handleDrehe),
+  ("c17opt", C17.handleOpt),
   ("c20l", C20.handleL),
   ("c20b", C20.handleB),
   ("c20x", C20.handleX),
